@@ -586,7 +586,7 @@ Intent(bi, m) ==
   IF m.op = "none" THEN "D"
   ELSE IF m.op \in {"rep", "cut"} /\ b.toks[m.i].s # "f" /\ m.t \in BadOf(b.toks[m.i].s) /\ (m.op = "rep" \/ m.i >= b.commit) THEN "E"
   ELSE IF m.op = "rep" /\ b.toks[m.i].s # "f" /\ m.t \in GoodOf(b.toks[m.i].s) /\ b.toks[m.i].s \notin OpenClasses \cup CloseClasses THEN "D"
-  ELSE IF m.op = "nest" THEN (IF DepthOf[m.t] <= Shallow THEN "D" ELSE IF DepthOf[m.t] > Cap THEN "E" ELSE "X")
+  ELSE IF m.op = "nest" THEN (IF DepthOf[m.t] <= Shallow THEN "D" ELSE IF m.t \in BadOf(b.toks[m.i].s) THEN "E" ELSE "X")
   ELSE "?"
 
 \* ------------------------------------------------------------------ the generator as a state machine
